@@ -87,10 +87,12 @@ pub struct Layout {
     /// extra noise elements (ECU with its own manufacturer extension, comments, unknown elements)
     pub noise: bool,
     pub indent: bool,
+    /// a DESC element inside CODING, SIGNAL and FRAME elements (only a PDU's DESC is part of the model)
+    pub foreign_desc: bool,
 }
 impl Default for Layout {
     fn default() -> Self {
-        Layout { pdu_order: [0, 1, 2, 3, 4], frame_order: [0, 1, 2, 3, 4], ref_first: false, refs_open_close: false, manuf_order: [0, 1, 2, 3], noise: false, indent: true }
+        Layout { pdu_order: [0, 1, 2, 3, 4], frame_order: [0, 1, 2, 3, 4], ref_first: false, refs_open_close: false, manuf_order: [0, 1, 2, 3], noise: false, indent: true, foreign_desc: false }
     }
 }
 
@@ -120,6 +122,9 @@ pub fn render_elem(e: &Elem, l: &Layout, out: &mut String) {
         Elem::Coding(c) => {
             out.push_str(&format!("{}<fx:CODING ID=\"{}\">{}", ind(3), esc(&c.id), nl));
             out.push_str(&format!("{}<ho:SHORT-NAME>{}</ho:SHORT-NAME>{}", ind(4), esc(&c.id), nl));
+            if l.foreign_desc {
+                out.push_str(&format!("{}<ho:DESC>description of coding {}</ho:DESC>{}", ind(4), esc(&c.id), nl));
+            }
             if l.refs_open_close {
                 out.push_str(&format!("{}<ho:CODED-TYPE ho:BASE-DATA-TYPE=\"{}\" CATEGORY=\"STANDARD-LENGTH-TYPE\"><ho:BIT-LENGTH>8</ho:BIT-LENGTH></ho:CODED-TYPE>{}", ind(4), esc(&c.base_type), nl));
             } else {
@@ -130,6 +135,9 @@ pub fn render_elem(e: &Elem, l: &Layout, out: &mut String) {
         Elem::Signal(s) => {
             out.push_str(&format!("{}<fx:SIGNAL ID=\"{}\">{}", ind(3), esc(&s.id), nl));
             out.push_str(&format!("{}<ho:SHORT-NAME>{}</ho:SHORT-NAME>{}", ind(4), esc(&s.id), nl));
+            if l.foreign_desc {
+                out.push_str(&format!("{}<ho:DESC>description of signal {}</ho:DESC>{}", ind(4), esc(&s.id), nl));
+            }
             // CODING-REF is only understood as an empty element (grammar of the sample files)
             out.push_str(&format!("{}<fx:CODING-REF ID-REF=\"{}\"/>{}", ind(4), esc(&s.coding_ref), nl));
             out.push_str(&format!("{}</fx:SIGNAL>{}", ind(3), nl));
@@ -174,7 +182,12 @@ pub fn render_elem(e: &Elem, l: &Layout, out: &mut String) {
             out.push_str(&format!("{}<fx:FRAME ID=\"{}\">{}", ind(3), esc(&f.id), nl));
             for c in l.frame_order {
                 match c {
-                    0 => out.push_str(&format!("{}<ho:SHORT-NAME>{}</ho:SHORT-NAME>{}", ind(4), esc(&f.short_name), nl)),
+                    0 => {
+                        out.push_str(&format!("{}<ho:SHORT-NAME>{}</ho:SHORT-NAME>{}", ind(4), esc(&f.short_name), nl));
+                        if l.foreign_desc {
+                            out.push_str(&format!("{}<ho:DESC>description of frame {}</ho:DESC>{}", ind(4), esc(&f.id), nl));
+                        }
+                    }
                     1 => out.push_str(&format!("{}<fx:BYTE-LENGTH>{}</fx:BYTE-LENGTH>{}", ind(4), f.byte_length, nl)),
                     2 => out.push_str(&format!("{}<fx:FRAME-TYPE>OTHER</fx:FRAME-TYPE>{}", ind(4), nl)),
                     3 => {
@@ -243,7 +256,11 @@ pub fn render_doc(elems: &[Elem], l: &Layout) -> String {
     out.push_str(nl);
     out.push_str("<fx:FIBEX xmlns:ho=\"http://www.asam.net/xml\" xmlns:fx=\"http://www.asam.net/xml/fbx\">");
     out.push_str(nl);
-    out.push_str("<fx:PROJECT ID=\"Project\"><ho:SHORT-NAME>ProjectName</ho:SHORT-NAME></fx:PROJECT>");
+    if l.foreign_desc {
+        out.push_str("<fx:PROJECT ID=\"Project\"><ho:SHORT-NAME>ProjectName</ho:SHORT-NAME><ho:DESC>description of the project</ho:DESC></fx:PROJECT>");
+    } else {
+        out.push_str("<fx:PROJECT ID=\"Project\"><ho:SHORT-NAME>ProjectName</ho:SHORT-NAME></fx:PROJECT>");
+    }
     out.push_str(nl);
     out.push_str("<fx:ELEMENTS>");
     out.push_str(nl);
